@@ -1293,6 +1293,7 @@ def install(eng):
         return one(st, _NP_FLT(to_int(args[0])))
 
     B['os.SEEK_SET'], B['os.SEEK_CUR'], B['os.SEEK_END'] = 0, 1, 2
+    B['np.float64'] = B['numpy.float64'] = 'np.float64'
     B['sys.float_info.epsilon'] = fractions.Fraction(1, 2 ** 52)     # binary64 machine epsilon
 
     # ------------------------------------------------ sequence methods
